@@ -78,7 +78,8 @@ THOROUGH = dict(cases=40000, workers=16, timecap=600)
 REQUIRED = {"cell": 20000, "total": 500, "additivity": 5000, "mask": 5000, "active_total": 500, "bins": 400,
             "periodicity": 5000, "periodicity_chords": 5000, "oracle_xcheck": 300, "miss": 50, "layout": 20,
             "pipeline": 1000, "pipeline_reuse": 300, "emission_function": 500, "mutated_fresh": 2000,
-            "mutated_chords": 2000, "mutated_state": 300}
+            "mutated_chords": 2000, "mutated_state": 250, "pipeline_alias": 20000, "aliasing_in": 10000,
+            "aliasing_out": 200}
 
 DELTA0 = 2.0e-8
 TANGENT_KEY = "cyl:ray-tangent-to-inner-bounding-cylinder:chord-before-tangent-point-lost"        # radius_inner > 0
@@ -945,6 +946,240 @@ def _interval_check(ctx, monitor, key, what, got, lo, hi, tol, **detail):
     return True
 
 
+# ------------------------------------------------------------------------------------------------------------
+# aliasing monitors: caller-owned arrays handed in, arrays handed out
+# ------------------------------------------------------------------------------------------------------------
+
+ALIAS_KINDS = ["voxel_map:int32-C", "voxel_map:int32-C", "voxel_map:int32-C", "voxel_map:int64-C", "voxel_map:float64-C",
+               "voxel_map:int32-F", "voxel_map:int64-strided", "voxel_map:int32-strided", "mask:bool-C", "mask:bool-C",
+               "mask:bool-F", "mask:int64-C", "mask:uint8-C"]
+
+
+def _caller_array(kind, vmap, mask):
+    """A caller-owned work array holding the map / mask in the given dtype and layout (int32-C is the emitter's own format)."""
+    what, lay = kind.split(":")
+    src = vmap if what == "voxel_map" else mask
+    dt = {"int32": np.int32, "int64": np.int64, "float64": np.float64, "bool": bool, "uint8": np.uint8}[lay.split("-")[0]]
+    a = np.array(src, dtype=dt, order="C")
+    if lay.endswith("-F"):
+        a = np.asfortranarray(a)
+    elif lay.endswith("-strided"):
+        a = np.repeat(a, 2, axis=2)[:, :, ::2]
+    return what, a
+
+
+def _check_aliasing(ctx, case, g, M, rays, geom, vmap, mask):
+    """(a) a caller-owned array handed to a constructor / setter and edited in place afterwards (work array re-used for the
+    next object) must not change the existing object: same entries as before the edit and as a fresh object built from a
+    copy of the original values, same bins, same map read back.  (b) arrays handed out (voxel_map, mask) and kept by the
+    user must keep their values across a later setter, and editing a returned mask must not change the object."""
+    hit = [r for r in rays if r["an"].total_hi > 0.0 and "E" in r][:3]
+    if not hit:
+        return
+    rng = np.random.default_rng(case["map"]["seed"] + 29)
+    kind = ALIAS_KINDS[int(rng.integers(0, len(ALIAS_KINDS)))]
+    path = ["ctor", "setter"][int(rng.integers(0, 2))]
+    what, arr = _caller_array(kind, vmap, mask)
+    orig = np.array(arr, copy=True, order="C")
+    ctx.cls("alias-in:" + kind)
+    if path == "ctor":
+        S = _Scene(case, g, M, **{what: arr})
+    else:
+        S = _Scene(case, g, M)
+        setattr(S.rt, what, arr)
+    if what == "voxel_map":
+        want_map = np.asarray(vmap).astype(np.int64)
+    else:
+        want_map = np.full(mask.size, -1, dtype=np.int64)
+        want_map[mask.ravel()] = np.arange(int(mask.sum()))
+        want_map = want_map.reshape(mask.shape)
+    nb = int(want_map.max()) + 1
+    key_in = "aliasing:caller-%s-array:%s:%s:in-place-edit-changes-object" % (what, kind.split(":")[1], path)
+    if not ctx.check(int(S.rt.bins) == nb and np.array_equal(np.asarray(S.rt.voxel_map), want_map), key_in.replace("in-place-edit-changes-object", "map-not-taken-over"),
+                     "map / bins after handing over the array are not the array's values", monitor="aliasing_in"):
+        return
+    E1 = [S.trace(r["ow"], r["dw"]) for r in hit]
+    # ---- the caller re-uses the work array --------------------------------------------------------------------
+    if what == "voxel_map":
+        new = rng.integers(-1, nb + 3, size=arr.shape)          # other sources, also beyond the old bins
+        new[tuple(rng.integers(0, n) for n in arr.shape)] = nb + 5
+        arr[...] = new.astype(arr.dtype)
+    else:
+        arr[...] = np.logical_not(orig).astype(arr.dtype)
+    try:
+        E2 = [S.trace(r["ow"], r["dw"]) for r in hit]
+    except _IndexOutOfRange as e:
+        ctx.check(False, key_in, "after the caller edited its own array in place, tracing the existing object raises IndexError (%s): "
+                  "the object aliases the caller's array while bins is frozen" % str(e)[:80], monitor="aliasing_in")
+        return
+    same = all(np.array_equal(a, b) for a, b in zip(E1, E2))
+    ok = ctx.check(same and int(S.rt.bins) == nb and np.array_equal(np.asarray(S.rt.voxel_map), want_map), key_in,
+                   "editing the caller's own array in place after it was handed to the constructor / setter changes the existing object "
+                   "(entries, bins or the map read back)", monitor="aliasing_in", entries_same=bool(same), bins=int(S.rt.bins), want_bins=nb,
+                   map_same=bool(np.array_equal(np.asarray(S.rt.voxel_map), want_map)))
+    if ok:
+        Fs = _Scene(case, g, M, **{what: np.array(orig, copy=True)})
+        for r, e2 in zip(hit, E2):
+            ctx.close(e2, Fs.trace(r["ow"], r["dw"]), key_in.replace("in-place-edit-changes-object", "differs-from-fresh-object-built-from-a-copy"),
+                      "entries differ from those of a fresh object built from a copy of the original values", atol=r["sum_atol"],
+                      monitor="aliasing_in", ray_cls=r["cls"])
+    else:
+        return
+    # ---- arrays handed out ---------------------------------------------------------------------------------------
+    ret_vm = S.rt.voxel_map
+    ret_mk = S.rt.mask
+    snap_vm, snap_mk = np.array(ret_vm, copy=True), np.array(ret_mk, copy=True)
+    setter = ["voxel_map", "mask"][int(rng.integers(0, 2))]
+    if setter == "voxel_map":
+        perm = rng.permutation(nb + 1) - 1                    # relabel the sources, same number of bins where possible
+        other = np.where(want_map >= 0, np.abs(perm[want_map + 1]), -1)
+        S.rt.voxel_map = other
+    else:
+        other = rng.random(want_map.shape) < 0.6
+        other.flat[int(rng.integers(0, other.size))] = True
+        S.rt.mask = other
+    ctx.check(np.array_equal(ret_vm, snap_vm), "aliasing:returned-voxel_map:changed-by-later-%s-setter" % setter,
+              "the array obtained from .voxel_map before changed its values when a new %s was assigned" % setter, monitor="aliasing_out")
+    ctx.check(np.array_equal(ret_mk, snap_mk), "aliasing:returned-mask:changed-by-later-%s-setter" % setter,
+              "the array obtained from .mask before changed its values when a new %s was assigned" % setter, monitor="aliasing_out")
+    T1 = [S.trace(r["ow"], r["dw"]) for r in hit]
+    mk = S.rt.mask
+    bins_before = int(S.rt.bins)
+    mk[...] = np.logical_not(mk)                                # the user scribbles on the returned mask
+    try:
+        T2 = [S.trace(r["ow"], r["dw"]) for r in hit]
+        same = all(np.array_equal(a, b) for a, b in zip(T1, T2)) and int(S.rt.bins) == bins_before
+    except _IndexOutOfRange:
+        same = False
+    ctx.check(same, "aliasing:returned-mask:user-edit-changes-object", "editing the array returned by .mask changes the object's entries / bins",
+              monitor="aliasing_out")
+
+
+def _check_pipeline_aliasing(ctx, case, g, M, rays, geom):
+    """Pipelines re-used for a second observation: the matrix array the user kept from the first observation keeps its
+    values, the second matrix is that of the second observation, a returned matrix scribbled on by the user does not leak
+    into a later observation, and pixels that a partial frame does not sample are zero."""
+    from raysect.optical import Point3D, Vector3D, translate, rotate_basis
+    from raysect.optical.observer import VectorCamera, SightLine, MeshCamera, FullFrameSampler2D
+    from raysect.optical.observer.base import FrameSampler1D
+    from raysect.primitive import Mesh
+    from raysect.core.workflow import SerialEngine
+    from cherab.tools.raytransfer import RayTransferPipeline2D, RayTransferPipeline1D, RayTransferPipeline0D
+    hit = [r for r in rays if r["an"].total_hi > 0.0 and "E_raw" in r]
+    if not hit:
+        return
+    S = _Scene(case, g, M)
+    ncell = g.ncell
+    bins = int(S.rt.bins)
+    rng = np.random.default_rng(case["map"]["seed"] + 31)
+    perm_map = rng.permutation(ncell).reshape(g.shape)       # another map with the same number of bins
+
+    def setup(cam):
+        cam.spectral_bins = bins
+        cam.min_wavelength, cam.max_wavelength = 500.0, 501.0
+        cam.spectral_rays = 1
+        cam.quiet = True
+        cam.render_engine = SerialEngine()
+
+    # ---------------- 2D ----------------
+    n = len(hit)
+    o = np.empty((n, 1), dtype=object)
+    d = np.empty((n, 1), dtype=object)
+    for i, r in enumerate(hit):
+        o[i, 0] = Point3D(*[float(x) for x in r["ow"]])
+        d[i, 0] = Vector3D(*[float(x) for x in r["dw"]])
+    pipe = RayTransferPipeline2D(kind="radiance")
+    cam = VectorCamera(o, d, pipelines=[pipe], parent=S.world)
+    setup(cam)
+    cam.pixel_samples = 1
+    cam.observe()
+    m1 = pipe.matrix
+    snap1 = np.array(m1, copy=True)
+    S.rt.voxel_map = perm_map
+    T2 = np.array([S.trace(r["ow"], r["dw"]) for r in hit])
+    atol = max(r["sum_atol"] for r in hit)
+    cam.observe()
+    m2 = pipe.matrix
+    ctx.check(np.array_equal(m1, snap1), "pipeline2d:returned-matrix-changed-by-later-observe",
+              "the array obtained from RayTransferPipeline2D.matrix after the first observation changed its values during the next observe() "
+              "(same camera, other voxel map with the same number of bins)", monitor="pipeline_alias", same_object=bool(m1 is m2))
+    if m2.shape == (n, 1, bins):
+        ctx.close(m2[:, 0, :], T2, "pipeline2d:second-observation-differs-from-traced-rays",
+                  "matrix of the second observation with a re-used RayTransferPipeline2D differs from the directly traced entries", atol=atol,
+                  monitor="pipeline_alias")
+    m2[...] = 1234.5                                           # the user scribbles on the returned matrix
+    keep = np.ones((n, 1), dtype=bool)
+    if n >= 2:
+        keep[rng.permutation(n)[:max(1, n // 2)], 0] = False
+    cam.frame_sampler = FullFrameSampler2D(mask=keep)
+    cam.observe()
+    m3 = np.asarray(pipe.matrix)
+    if m3.shape == (n, 1, bins):
+        ctx.close(m3[keep[:, 0], 0, :], T2[keep[:, 0]], "pipeline2d:reused-pipeline:sampled-pixels-differ-from-traced-rays",
+                  "sampled pixels of a partial frame on a re-used RayTransferPipeline2D differ from the directly traced entries", atol=atol,
+                  monitor="pipeline_alias")
+        if (~keep).any():
+            ctx.check(bool(np.all(m3[~keep[:, 0], 0, :] == 0.0)), "pipeline2d:reused-pipeline:unsampled-pixels-not-zero",
+                      "pixels excluded by the frame-sampler mask are not zero in the matrix of a re-used RayTransferPipeline2D "
+                      "(entries of an earlier observation / of the user's edits survive)", monitor="pipeline_alias",
+                      max_abs=float(np.abs(m3[~keep[:, 0], 0, :]).max()))
+    cam.parent = None
+
+    # ---------------- 1D: a two-triangle MeshCamera looking along the first hitting ray (random rays: only identity /
+    #                  zero relations are judged) ----------------
+    class _Partial(FrameSampler1D):
+        def __init__(self, pixels):
+            self.pixels = list(pixels)
+
+        def generate_tasks(self, pixels):
+            return [(p,) for p in self.pixels]
+
+    r0 = hit[0]
+    dw = Vector3D(*[float(x) for x in r0["dw"]])
+    h = 0.05 * g.min_cell
+    mesh = Mesh([[-h, -h, 0], [h, -h, 0], [-h, h, 0], [h, h, 0]], [[0, 1, 2], [1, 3, 2]], smoothing=False, closed=False)
+    pipe1 = RayTransferPipeline1D(kind="radiance")
+    mc = MeshCamera(mesh, pipelines=[pipe1], parent=S.world,
+                    transform=translate(*[float(x) for x in r0["ow"]]) * rotate_basis(dw, dw.orthogonal()))
+    setup(mc)
+    mc.pixel_samples = 4
+    mc.observe()
+    a1 = pipe1.matrix
+    s1 = np.array(a1, copy=True)
+    S.rt.mask = None
+    mc.observe()
+    a2 = pipe1.matrix
+    ctx.check(np.array_equal(a1, s1), "pipeline1d:returned-matrix-changed-by-later-observe",
+              "the array obtained from RayTransferPipeline1D.matrix after the first observation changed its values during the next observe()",
+              monitor="pipeline_alias", same_object=bool(a1 is a2))
+    ok = ctx.check(a2.shape == (2, bins) and bool(np.all(np.isfinite(a2)) and np.all(a2 >= 0.0)), "pipeline1d:matrix-malformed",
+                   "RayTransferPipeline1D.matrix has the wrong shape or negative / non-finite entries", monitor="pipeline_alias")
+    if ok:
+        a2[...] = 1234.5
+        mc.frame_sampler = _Partial([1])
+        mc.observe()
+        a3 = np.asarray(pipe1.matrix)
+        ctx.check(bool(np.all(a3[0] == 0.0)) and bool(np.all(a3[1] < 1000.0)), "pipeline1d:reused-pipeline:unsampled-pixels-not-zero",
+                  "a pixel not sampled by a partial frame is not zero (or a sampled one keeps the user's edit) in the matrix of a re-used "
+                  "RayTransferPipeline1D", monitor="pipeline_alias", row0_max=float(np.abs(a3[0]).max()), row1_max=float(np.abs(a3[1]).max()))
+    mc.parent = None
+
+    # ---------------- 0D ----------------
+    pipe0 = RayTransferPipeline0D(kind="radiance")
+    sl = SightLine(pipelines=[pipe0], parent=S.world, transform=translate(*[float(x) for x in r0["ow"]]) * rotate_basis(dw, dw.orthogonal()))
+    setup(sl)
+    sl.pixel_samples = 2
+    sl.observe()
+    z1 = pipe0.matrix
+    zs = np.array(z1, copy=True)
+    S.rt.voxel_map = perm_map
+    sl.observe()
+    ctx.check(np.array_equal(z1, zs), "pipeline0d:returned-matrix-changed-by-later-observe",
+              "the array obtained from RayTransferPipeline0D.matrix after the first observation changed its values during the next observe()",
+              monitor="pipeline_alias", same_object=bool(z1 is pipe0.matrix))
+    sl.parent = None
+
+
 class _MutModel:
     """What the object should now be, tracked from the public calls only."""
     def __init__(self, case, g):
@@ -1256,6 +1491,7 @@ def _run_case(case, ctx):
     # ---------------- pipelines: the same rays observed through RayTransferPipeline2D / 0D -----------------------
     if case.get("_caseno", 0) % 3 == 0:
         _check_pipelines(ctx, A, rays, geom)
+        _check_pipeline_aliasing(ctx, case, g, M, rays, geom)
 
     # ---------------- periodicity: the ray rotated by the period about the axis ---------------------------
     if gd["kind"] == "cyl":
@@ -1350,6 +1586,9 @@ def _run_case(case, ctx):
             _interval_check(ctx, "active_total", r["key_act"] or "%s:active-total:mask" % geom,
                             "entries do not sum to the chord length inside the active (masked-in) cells",
                             np.array([Mk.sum()]), lo_a, hi_a, (runs + 1) * an.dt + atol, ray=i, ray_cls=r["cls"], runs=runs, dt=an.dt)
+
+    # ---------------- aliasing of arrays handed in / handed out -------------------------------------------------
+    _check_aliasing(ctx, case, g, M, rays, geom, vmap, mask)
 
     # ---------------- other memory layouts / dtypes of the same map -------------------------------------------
     if case.get("layout"):
